@@ -461,7 +461,7 @@ func checkChanDiscipline(c *Ctx, prop, owner, mf string) {
 			continue
 		}
 		lf := lockFlow(fn, heldSet{})
-		for _, b := range fn.Blocks {
+		for _, b := range blocksDeep(fn) {
 			for _, in := range b.Instrs {
 				kind := ""
 				switch x := in.(type) {
